@@ -199,7 +199,8 @@ class Layout:
     line (`docmode == "alt"`), after a `!<predocmark_alt>t` line likewise but blank lines do not
     end the block (`docmode == "prealt"`)."""
 
-    def __init__(self, rng, lim, risky=True, var: Variant = AS_IS, marks=MARKS):
+    def __init__(self, rng, lim, risky=True, var: Variant = AS_IS, marks=MARKS, pp_safe=False):
+        self.pp_safe = pp_safe  # True: the file goes through the real preprocessor - directives it accepts only
         self.rng = rng
         self.lim = lim
         self.var = var      # variant of the code under test: decides which layouts are finding classes
@@ -348,7 +349,13 @@ class Layout:
             elif r < 0.93:
                 # preprocessor line: held back by the converter, skipped by the reader (also inside a
                 # continued statement); any column-6 character
-                t = rng.choice(["#define A 1", "#ifdef X", "#endif", "#  if 1", "#", "#if 1 ! c", "#x   &", "#else"])
+                if self.pp_safe == "nocpp":
+                    continue
+                if self.pp_safe:
+                    # directives that are complete on their own line and define nothing the statements use
+                    t = rng.choice(["#define CPPA 1", "#undef CPPA", "#", "#  define CPPB(q) q", "#define CPPC"])
+                else:
+                    t = rng.choice(["#define A 1", "#ifdef X", "#endif", "#  if 1", "#", "#if 1 ! c", "#x   &", "#else"])
                 self.fixed.append(t)
                 self.free.append(t)
                 self.feat.add("cpp-line")
@@ -731,8 +738,8 @@ def gen_program(rng, k):
     return out
 
 
-def render_program(rng, prog, lim, risky=True, var: Variant = AS_IS, marks=MARKS):
-    L = Layout(rng, lim, risky, var, marks)
+def render_program(rng, prog, lim, risky=True, var: Variant = AS_IS, marks=MARKS, pp_safe=False):
+    L = Layout(rng, lim, risky, var, marks, pp_safe)
     for toks, label in prog:
         L.statement(toks, label)
         L.filler(False)
@@ -932,19 +939,21 @@ def gen_extension_lists(rng):
     return free, fixed, fpp
 
 
-def project_settings(src: Path, lim: bool, marks, lists):
+def project_settings(src: Path, lim: bool, marks, lists, preprocess=False):
     kw = {}
     if lists is not None:
         kw = dict(extensions=list(lists[0]), fixed_extensions=list(lists[1]), fpp_extensions=list(lists[2]))
     st = make_settings(lim, marks, src_dir=[src], **kw)
-    # as `ford.main` does for `preprocess: false`, *after* the settings object was built (the
-    # effective `extensions` keep the preprocessed extensions): no external preprocessor here
-    st.preprocess = False
-    st.fpp_extensions = []
+    if not preprocess:
+        # as `ford.main` does for `preprocess: false`, *after* the settings object was built (the
+        # effective `extensions` keep the preprocessed extensions): no external preprocessor
+        st.preprocess = False
+        st.fpp_extensions = []
+    # else: the default - files with a preprocessed extension go through `settings.preprocessor` (pcpp, in-process)
     return st
 
 
-def run_project(src: Path, lim: bool, marks, lists):
+def run_project(src: Path, lim: bool, marks, lists, preprocess=False):
     """[(file name, parsed in fixed form?, entity tree)] of `Project(settings)` over the directory"""
     import ford.sourceform as sf
     from ford.fortran_project import Project
@@ -952,7 +961,7 @@ def run_project(src: Path, lim: bool, marks, lists):
     sf.namelist = sf.NameSelector()
     try:
         with common.quiet():
-            pr = Project(project_settings(src, lim, marks, lists))
+            pr = Project(project_settings(src, lim, marks, lists, preprocess))
         out = []
         for f in pr.files:
             o = entity_obs(f)
@@ -1018,7 +1027,8 @@ def eval_project_case(d: Path, case: dict):
     clear_dir(dr)
     (dx / f"unit.{case['ext']}").write_text("".join(l + "\n" for l in case["fixed"]))
     (dr / f"unit.{case['free_ext']}").write_text("".join(l + "\n" for l in case["free"]))
-    a, b = run_project(dx, lim, marks, lists), run_project(dr, lim, marks, lists)
+    pre = bool(case.get("preprocess", False))
+    a, b = run_project(dx, lim, marks, lists, pre), run_project(dr, lim, marks, lists, pre)
     if b[0] != "ok" or len(b[1]) != 1 or b[1][0][1]:
         return f"free-form project not read as expected: {str(b)[:300]} (harness defect?)"
     if a[0] != "ok":
@@ -1031,6 +1041,162 @@ def eval_project_case(d: Path, case: dict):
                 f"{'in fixed' if a[1][0][1] else 'in FREE'} form) at " + why)
     return None
 
+
+
+# --------------------------------------------------------------------------
+# config probe (round 6): with which (fixed, length_limit, preprocessor) the readers of a project's
+# files and of their INCLUDEd files are constructed, and what that does to text beyond column 72
+# --------------------------------------------------------------------------
+CFG_INC_NAME = "cfgprobe.incl"    # an extension no extension list ever holds
+CFG_SEQ = [",{}off", " ,{}off", ",  {}off"]
+
+
+def gen_cfg_stub(rng, tag):
+    """(main lines, include lines, statement-field variables, all variables): one declaration in the main
+    file and one in the INCLUDEd file, each with a second variable in columns 73+.  Valid in both forms."""
+    k = rng.randint(0, 3)
+    seq_m, seq_i = rng.choice(CFG_SEQ).format("main"), rng.choice(CFG_SEQ).format("inc")
+    main = [f"      subroutine stub{tag}", "      integer :: mainv".ljust(72) + seq_m]
+    if k & 1:
+        main.append("#define CFGPROBE 1")
+    if k & 2:
+        main.append("C a comment line".ljust(rng.choice([20, 72, 80])))
+    main += [f"      include '{CFG_INC_NAME}'", f"      end subroutine stub{tag}"]
+    inc = ["      integer :: incv".ljust(72) + seq_i]
+    return main, inc
+
+
+def cfg_expected_vars(fixed: bool, lim: bool):
+    """from the property statement: in a fixed-form file - and in the files it INCLUDEs - text beyond
+    column 72 is ignored when the limit is on and kept when it is off; a free-form file keeps it"""
+    return ["mainv", "incv"] if (fixed and lim) else ["mainv", "mainoff", "incv", "incoff"]
+
+
+def cfg_observed_vars(tree):
+    subs = tree.get("subroutines") or []
+    if len(subs) != 1:
+        return f"{len(subs)} subroutines"
+    return [v.get("name") for v in subs[0].get("variables", [])]
+
+
+def eval_config_case(d: Path, case: dict):
+    """case: lim, lists, preprocess, ext, main, inc.  One stub file as the only source file of a project."""
+    dd = d / "cfg1"
+    clear_dir(dd)
+    (dd / CFG_INC_NAME).write_text("".join(l + "\n" for l in case["inc"]))
+    (dd / f"stub.{case['ext']}").write_text("".join(l + "\n" for l in case["main"]))
+    res = run_project(dd, bool(case["lim"]), MARKS, case.get("lists"), bool(case.get("preprocess")))
+    if res[0] != "ok":
+        return f"project failed: {res[1]}"
+    if len(res[1]) != 1:
+        return f"project has {len(res[1])} source files"
+    _, fx, tree = res[1][0]
+    want_fixed = bool(case["want_fixed"])
+    if fx != want_fixed:
+        return f"stub.{case['ext']} parsed in {'fixed' if fx else 'free'} form"
+    got, exp = cfg_observed_vars(tree), cfg_expected_vars(want_fixed, bool(case["lim"]))
+    if got != exp:
+        return (f"stub.{case['ext']} (fixed-form extension: {want_fixed}, fixed_length_limit: {bool(case['lim'])}, "
+                f"preprocessed: {bool(case.get('pp'))}) declares {got}, expected {exp}")
+    return None
+
+
+def config_probe(drv, d: Path, rng, rep, hist, n_sets, var):
+    """One stub per extension through the real `Project` with the real preprocessor where the lists ask for
+    it.  (a) correspondence: constructor arguments of every real `FortranReader` (main file and INCLUDEd file)
+    vs the model `fileCfg` / `includeCfg`; the reader's items under that configuration vs `readProjectFile`;
+    (b) oracle from the property statement: which variables each stub declares."""
+    from translate.c14 import spy_readers
+    from ford.reader import FortranReader
+
+    n = bad = fails = 0
+    for i in range(n_sets):
+        lists = None if i < 4 else gen_extension_lists(rng)
+        preprocess = (i % 2 == 0) if i < 4 else rng.random() < 0.7
+        lim = (i // 2 % 2 == 0) if i < 4 else rng.random() < 0.5
+        st = project_settings(Path("."), lim, MARKS, lists, True)
+        exts, fixed_exts, fpp_exts = list(st.extensions), list(st.fixed_extensions), list(st.fpp_extensions)
+        cmd = st.preprocessor.split()
+        probe = sorted(set(EXT_POOL) | set(exts) | set(fixed_exts))
+        dd = d / "cfgprobe"
+        clear_dir(dd)
+        main, inc = gen_cfg_stub(rng, i)
+        (dd / CFG_INC_NAME).write_text("".join(l + "\n" for l in inc))
+        for e in probe:
+            (dd / f"stub_{e}.{e}").write_text("".join(l + "\n" for l in main))
+        rec: list = []
+        with spy_readers(rec):
+            res = run_project(dd, lim, MARKS, lists, preprocess)
+        seen, cur = {}, None
+        for name, fx, lm, pp in rec:
+            if name == CFG_INC_NAME:
+                if cur is not None:
+                    seen[cur].append((fx, lm, pp))
+            else:
+                cur = name.rsplit(".", 1)[1]
+                seen[cur] = [(fx, lm, pp)]
+        trees = {name.rsplit(".", 1)[1]: (fx, tree) for name, fx, tree in res[1]} if res[0] == "ok" else {}
+        got = drv.batch([["c14.cfg", e, "1" if preprocess else "0", "1" if lim else "0", str(len(exts)), *exts,
+                          str(len(fixed_exts)), *fixed_exts, *fpp_exts] for e in probe])
+        reads, read_exp = [], []
+        for e, g in zip(probe, got):
+            n += 1
+            if res[0] != "ok":
+                impl = ["exc", res[1]]
+            elif e not in seen:
+                impl = ["ok", "none"]
+            else:
+                impl = ["ok", *["1" if b else "0" for c in seen[e] for b in c]]
+            key = "config-" + ("raised" if impl[0] != "ok" else "none" if impl[1] == "none" else
+                               ("fixed" if impl[1] == "1" else "free") + ("-limit-on" if impl[2] == "1" else "-limit-off")
+                               + ("-preprocessed" if impl[3] == "1" else ""))
+            hist[key] = hist.get(key, 0) + 1
+            if impl != g:
+                bad += 1
+                rep.tie_broken(f"correspondence project/reader configuration: extension {e!r} (preprocess={preprocess}, "
+                               f"fixed_length_limit={lim}, extensions={exts}, fixed_extensions={fixed_exts}, "
+                               f"fpp_extensions={fpp_exts}): model {g} vs implementation {impl}",
+                               {"stream": "config-probe", "extension": e, "impl": impl, "model": g})
+            if impl[0] == "ok" and impl[1] != "none" and len(impl) == 7:
+                # the reader's items under the recorded configuration, against `readProjectFile`
+                fx, lm, pp = seen[e][0]
+                try:
+                    with common.quiet():
+                        items = ["ok", *FortranReader(str(dd / f"stub_{e}.{e}"), *MARKS, fixed=fx, length_limit=lm,
+                                                      preprocessor=cmd if pp else None)]
+                except Exception as ex:   # noqa: BLE001
+                    items = ["exc", exc_name(ex)]
+                read_exp.append((e, items))
+                reads.append(["c14.readprj", var.code, *MARKS, "1" if fx else "0", "1" if lm else "0", "1" if pp else "0",
+                              "1", CFG_INC_NAME, str(len(inc)), *[l + "\n" for l in inc], *[l + "\n" for l in main]])
+            # (b) the oracle
+            want_fixed = e in fixed_exts
+            if e in exts or want_fixed:
+                case = {"stream": "config", "lim": lim, "lists": lists, "preprocess": preprocess, "ext": e,
+                        "want_fixed": want_fixed, "pp": preprocess and e in fpp_exts, "main": main, "inc": inc,
+                        "fixed": main}
+                if res[0] != "ok":
+                    why = f"project failed: {res[1]}"
+                elif e not in trees:
+                    why = f"stub_{e}.{e} was not parsed"
+                elif trees[e][0] != want_fixed:
+                    why = f"stub_{e}.{e} parsed in {'fixed' if trees[e][0] else 'free'} form"
+                else:
+                    o, x = cfg_observed_vars(trees[e][1]), cfg_expected_vars(want_fixed, lim)
+                    why = None if o == x else (f"stub_{e}.{e} (fixed-form extension: {want_fixed}, fixed_length_limit: "
+                                               f"{lim}, preprocessed: {case['pp']}) declares {o}, expected {x}")
+                if why is not None:
+                    fails += 1
+                    rep.failing_input(dict(case, why=why, **{"class": None}), None)
+        for (e, items), g in zip(read_exp, drv.batch(reads) if reads else []):
+            n += 1
+            if items != g:
+                bad += 1
+                rep.tie_broken(f"correspondence project/reader under the recorded configuration: stub_{e}.{e}: "
+                               f"model {g} vs implementation {items}",
+                               {"stream": "config-probe", "extension": e, "impl": items, "model": g,
+                                "main": main, "inc": inc})
+    return n, bad, fails
 
 # --------------------------------------------------------------------------
 
@@ -1057,6 +1223,8 @@ def replay_case(rep, drv, d, case, var):
         why = eval_entity_case(d, case)
     elif stream == "project":
         why = eval_project_case(d, case)
+    elif stream == "config":
+        why = eval_config_case(d, case)
     elif stream == "include":
         why, _, obs = eval_include_case(drv, d, case, var)
         print(f"replay: {obs}")
@@ -1102,6 +1270,7 @@ def run(tier: str, seed: int, replay: str | None = None) -> int:
     n_include = 400 if quick else 4000
     n_project = 60 if quick else 600
     n_formsets = 6 if quick else 40
+    n_cfgsets = 12 if quick else 80
 
     hist: dict[str, int] = {}
     samples = []
@@ -1209,19 +1378,42 @@ def run(tier: str, seed: int, replay: str | None = None) -> int:
         # ---------------- project stream
         ev_form, bad_form = form_probe(drv, d, rng, rep, hist, n_formsets)
         n_bad_corr += bad_form
+        ev_cfg, bad_cfg, fail_cfg = config_probe(drv, d, rng, rep, hist, n_cfgsets, var)
+        n_bad_corr += bad_cfg
+        n_oracle_fail += fail_cfg
+        ev_form += ev_cfg
         n_prj_eval = 0
         for k in range(n_project):
             lim = rng.random() < 0.65
-            lists = None if k < 8 else gen_extension_lists(rng)
+            lists = None if k < 16 else gen_extension_lists(rng)
             exts, fixed_exts = effective_lists(lists)
             free_only = sorted(e for e in exts if e not in fixed_exts)
-            # every fixed-form extension of the default lists comes first, then random ones
-            ext = sorted(fixed_exts)[k % len(fixed_exts)] if k < 8 else rng.choice(sorted(fixed_exts))
-            free_ext = rng.choice(free_only)
+            # every fixed-form extension of the default lists comes first (each with and without the
+            # preprocessor, limit on), then random ones
+            ext = sorted(fixed_exts)[(k // 2) % len(fixed_exts)] if k < 16 else rng.choice(sorted(fixed_exts))
+            # with the preprocessor (the default of a project: `.F`, `.FOR` go through pcpp) or without
+            pre = (k % 2 == 0) if k < 16 else rng.random() < 0.6
+            if k < 16:
+                lim = k < 8
+            fpp_now = list(project_settings(Path("."), lim, MARKS, lists, pre).fpp_extensions)
+            # the free-form twin is preprocessed iff the fixed-form file is (the preprocessor turns a
+            # directive line into an empty line, which the reader - in either form - makes an empty
+            # documentation line behind a doc comment; a unit.F is the equivalent of a unit.F90, not of a
+            # unit.f90); where the lists have no such free-form extension no directive lines are written
+            twins = [e for e in free_only if (e in fpp_now) == (ext in fpp_now)]
+            free_ext = rng.choice(twins or free_only)
+            pp_mode = ("nocpp" if not twins else True) if pre else False
             prog = gen_program(rng, 5000 + k)
-            L = render_program(rng, prog, lim, risky=False, var=var, marks=rng.choice(MARK_SETS))
+            L = render_program(rng, prog, lim, risky=False, var=var, marks=rng.choice(MARK_SETS), pp_safe=pp_mode)
             case = {"stream": "project", "lim": lim, "marks": list(L.marks), "lists": lists, "ext": ext,
-                    "free_ext": free_ext, "fixed": L.fixed, "free": L.free}
+                    "free_ext": free_ext, "preprocess": pre, "fixed": L.fixed, "free": L.free}
+            hist["project-file-" + ("preprocessed" if ext in fpp_now else "not-preprocessed") + "-limit-"
+                 + ("on" if lim else "off")] = hist.get(
+                "project-file-" + ("preprocessed" if ext in fpp_now else "not-preprocessed") + "-limit-"
+                + ("on" if lim else "off"), 0) + 1
+            if "sequence-field" in L.feat and ext in fpp_now:
+                hist["project-file-preprocessed-with-sequence-field"] = hist.get(
+                    "project-file-preprocessed-with-sequence-field", 0) + 1
             why = eval_project_case(d, case)
             n_prj_eval += 1
             hist["project-file"] = hist.get("project-file", 0) + 1
